@@ -271,10 +271,18 @@ func (g *Gen) BlnConfig() *Config {
 }
 
 func (g *Gen) Config() *Config {
+	var c *Config
 	if g.Policy == PolTA {
-		return g.TAConfig()
+		c = g.TAConfig()
+	} else {
+		c = g.BlnConfig()
 	}
-	return g.BlnConfig()
+	// rarely used policy-independent options: class control with the pod QoS class as default class makes the pipeline
+	// decorate every adjustment/update; the Prometheus exporter brings the metrics gatherer and its lock into play
+	if g.R.Chance(1, 6) {
+		c.Common = &CommonCfg{RDTQoSDefault: g.R.Chance(1, 2), BlockIOQoSDefault: g.R.Chance(1, 2), PrometheusExport: g.R.Chance(1, 2)}
+	}
+	return c
 }
 
 // ---------- pods / containers ----------
